@@ -283,6 +283,7 @@ def tokEvents (t : String) : Option (List ReaderClose.Event) :=
   | ["bc", _] => some [.connClose, .coordClose]
   | ["fq"] => some [.fetchReq]
   | ["lk", _] => some []
+  | ["mq"] => some []                           -- a background metadata refresh reached the broker (never answered)
   | ["lq"] => some []                           -- the ListOffsets after an out-of-range Fetch arrived (never answered)
   | ["to", _] => some []                        -- a call the driver waited for during the whole watchdog bound (monitor)
   | ["lo", _] => some []                        -- connections of the Reader's lag monitor: censused (`oc`), not ordered
